@@ -69,6 +69,7 @@ class M(HasTraits):
     tmp = Int(5, transient=True)
     keep = Int(3, transient=False)          # explicitly NOT transient
     ro = ReadOnly
+    ident = T.UUID(can_init=True)          # write-once for as long as the object counts as initialised
     ref_list = List(Int, copy="ref")
     sh_list = List(List(Int), copy="shallow")
     total = Property(Int, observe="li.items")
@@ -177,7 +178,62 @@ def must_reject(ctx, what, f, mode):
     ctx.fail("live/invalid-accepted", "%s on the %s image was accepted" % (what, mode))
 
 
+class Volatile(HasTraits):
+    """Nothing to persist: every trait is transient (or a property) - the image is still a live object of the class."""
+    t = Int(transient=True)
+    seen = List(transient=True)
+    total = Property(Int, observe="t")
+    deps = Property(Int, depends_on="t")
+
+    @cached_property
+    def _get_total(self):
+        return self.t * 2
+
+    @cached_property
+    def _get_deps(self):
+        return self.t * 3
+
+    @observe("t")
+    def _t_seen(self, event):
+        self.seen.append(event.new)
+
+    def _t_changed(self, new):
+        self.seen.append(("static", new))
+
+
+def volatile_check(ctx, mode, t0):
+    v = Volatile()
+    if t0:
+        v.t = t0
+        v.total, v.deps
+    try:
+        if mode.startswith("p"):
+            c = pickle.loads(pickle.dumps(v, int(mode[1])))
+        elif mode == "deepcopy":
+            c = copy.deepcopy(v)
+        elif mode == "copy_traits":
+            c = copy.copy(v)
+        else:
+            c = v.clone_traits()
+    except Exception as e:
+        ctx.fail("copy/raised", "%s of an object without persistent state raised %r" % (mode, e))
+    ctx.label("object-without-persistent-state")
+    if c.total != c.t * 2 or c.deps != c.t * 3:
+        ctx.fail("live/property-dependency", "%s: image of an all-transient object: t=%r total=%r deps=%r" % (mode, c.t, c.total, c.deps))
+    del c.seen[:]
+    c.t += 7
+    if sorted(map(repr, c.seen)) != sorted(map(repr, [c.t, ("static", c.t)])):
+        ctx.fail("live/observer", "%s: image of an all-transient object: after t += 7 its declared observer and static handler "
+                 "recorded %r (expected one call each)" % (mode, c.seen))
+    if c.total != c.t * 2 or c.deps != c.t * 3:
+        ctx.fail("live/property-dependency", "%s: image of an all-transient object after a change: t=%r total=%r deps=%r (stale cache)"
+                 % (mode, c.t, c.total, c.deps))
+    if not c.traits_inited():
+        ctx.fail("state/inited", "%s: traits_inited() is False on the image of an all-transient object" % mode)
+
+
 def objects_run(case, ctx):
+    volatile_check(ctx, case["mode"], len(case["ops"]) % 3)
     o = M()
     ro_set = False
     local_shade = None
@@ -394,6 +450,11 @@ def objects_run(case, ctx):
         if getattr(c, pn) != c.w * 100 + c.wz:
             ctx.fail("live/property-dependency", "%s: after changing wz on the image its cached property %s reads %r; w=%r wz=%r"
                      % (mode, pn, getattr(c, pn), c.w, c.wz))
+    # the image is an INITIALISED object like its original, and its identifier is as write-once as the original's
+    if not c.traits_inited():
+        ctx.fail("state/inited", "%s: traits_inited() is False on the image (True on the original)" % mode)
+    import uuid as _uuid
+    must_reject(ctx, "assignment of the write-once identifier (UUID(can_init=True))", lambda: setattr(c, "ident", _uuid.uuid4()), mode)
     if ro_set:
         must_reject(ctx, "second assignment of the write-once attribute", lambda: setattr(c, "ro", 99), mode)
     else:
